@@ -1401,26 +1401,17 @@ class GaussianState(State):
 
             return np.exp(exponent) / np.sqrt(np.linalg.det(M))
 
-        zero_phaseshifts = np.isclose(np.sin(np_angles / 2), 0.0)
+        # NOTE: This is the same formula as above. The square root of the determinant
+        # is calculated as the product of the square roots of the eigenvalues, since
+        # the principal square root of the determinant itself may pick the wrong
+        # branch for multiple modes.
+        z = np.exp(1j * np_angles)
 
-        if np.all(zero_phaseshifts):
-            return 1.0 + 0.0j
+        A = np.diag(np.concatenate([1 - z, 1 - z]) / 2)
+        B = np.diag(np.concatenate([1 + z, 1 + z]) / 2)
 
-        if np.any(zero_phaseshifts):
-            reduced_modes = tuple(np.where(~zero_phaseshifts)[0])
-            reduced_state = self.reduced(reduced_modes)
+        M = cov @ A + B
 
-            reduced_angles = np_angles[reduced_modes,]
+        exponent = -(np.conj(mean) @ A @ np.linalg.solve(M, mean))
 
-            return reduced_state.get_phaseshifter_expectation_value(reduced_angles)
-
-        D_phi = np.diag(1 / (np.tan(np_angles / 2)).repeat(2))
-
-        cov_D_phi = (cov + 1j * D_phi) / 2
-
-        exponent = -(np.conj(mean) @ np.linalg.inv(cov_D_phi) @ mean) / 2
-        denominator = np.prod(1 - np.exp(1j * np_angles)) * np.sqrt(
-            np.linalg.det(cov_D_phi)
-        )
-
-        return np.exp(exponent) / denominator
+        return np.exp(exponent) / np.prod(np.sqrt(np.linalg.eigvals(M)))
